@@ -1182,11 +1182,15 @@ def check_kernel_mode(sb, kernel, view, key, mod, consts, mode, opts, res, known
                     # (SIGALRM) confirms non-termination, anything else means the unwinding bound was too small
                     inputs = model_inputs(model, argset)
                     conf = replay(sb, kernel, view, key, consts, inputs, p, "bound", regions)
-                    if conf.get("replay") == "confirmed" and "signal 14" in str(conf.get("failed_claims")):
+                    if conf.get("replay") == "confirmed":
+                        # either no return within 5 s, or the real build returned an outcome that violates the claims
                         rec["inputs"] = {k: (hex(x) if abs(x) > 1 << 20 else x) for k, x in inputs.items()}
                         rec["symbolic_outcome"] = "UNWIND %s" % short(p.payload)
                         rec.update(conf)
-                        rec["failed_claims"] = ["terminates: the real build did not return within 5 s"]
+                        if "signal 14" in str(conf.get("failed_claims")):
+                            rec["failed_claims"] = ["terminates: the real build did not return within 5 s"]
+                        else:
+                            rec["failed_claims"] = ["beyond the unwinding bound; on the real build: %s" % conf.get("failed_claims")]
                         res["violations"].append(rec)
                         res["obligations"].append(rec)
                         continue
@@ -1234,8 +1238,6 @@ def check_kernel_mode(sb, kernel, view, key, mod, consts, mode, opts, res, known
             if v == "sat" and model is not None:
                 inputs = model_inputs(model, argset)
                 conf = replay(sb, kernel, view, key, consts, inputs, p, "ub" if p.kind == "UB" else "claim", [])
-                if p.kind == "UNWIND" and "signal 14" not in str(conf.get("failed_claims")):
-                    continue
                 if conf["replay"] == "confirmed":
                     found = {"id": kf.id, "inputs": inputs, "observed": conf.get("observed"), "kernel": kernel.name}
                     break
